@@ -16,4 +16,10 @@ if true; then
 fi
 rm -rf "$W"/*; ./bin/instrument -repo /repo -out "$W" -rules r2 -rt /verif/rt >/dev/null
 go build -race -tags verif -overlay "$W/overlay.json" -o "$W/vrace" ./harness/cmd/vcheck
+# optional warm-ups: the 32-bit digest program of C04 and the newer toolchain's test binary of C09 (both are built again by run.sh)
+rm -rf "$W"/*; ./bin/instrument -repo /repo -out "$W" -rules none -rt /verif/rt >/dev/null
+GOARCH=386 go build -tags verif -overlay "$W/overlay.json" -o "$W/platdigest386" ./harness/cmd/platdigest 2>/dev/null || true
+if [ -x /opt/veriftools/go1.26.8/bin/go ]; then
+  PATH=/opt/veriftools/go1.26.8/bin:$PATH go test -c -vet=off -tags verif -overlay "$W/overlay.json" -o "$W/synctest.test" ./harness/fuzzwrap 2>/dev/null || true
+fi
 echo setup ok
